@@ -543,8 +543,22 @@ def scan_queries(tier, mode="func"):
     return qs
 
 
+def text_queries(tier):
+    """The real decode_text (folding / prefix decoding) against the reference decoder, for all text-field bodies of K units."""
+    qs = []
+    for v, k in ([(2, 4), (2, 5), (1, 4)] if tier == "quick" else [(2, 3), (2, 4), (2, 5), (2, 6), (2, 7), (2, 8), (1, 4), (1, 6)]):
+        qs.append(Q("text_decode_K%d_v%d" % (k, v), "h01_text.c", defs={"KLEN": k, "CIFV": v, "CIF_API_VERIF_BUF_SIZE_INITIAL": 16, "CIF_API_VERIF_BUF_MIN_FILL": 1},
+                    extra=ICU_NORM_CHEAP, libtus=["parser.c", "value.c", "map.c", "packet.c", "utils.c"], remove=PARSER_SEAMS, unwind=k + 3,
+                    unwindset=VAL_REC + ["cif_parse_internal.*:170", "ref_decode_text.*:%d" % (k + 2), "u_strncmp.*:%d" % (k + 2), "u_strncpy.*:%d" % (k + 2), "memcmp.*:8"], mode="func", replay=False,
+                    uthash="model", timeout=900 if tier != "quick" else 400, mem_gb=8,
+                    bounds={"function": "decode_text", "text-field body": "%d code units over the CIF %s value characters (no CR), contents symbolic" % (k, "2.0" if v == 2 else "1.1"),
+                            "options": "defaults of the dialect (CIF 2.0: unfolding and prefix removal on; CIF 1.1: off)", "target": "new or existing value object (symbolic)"},
+                    note="real decode_text vs reference decoder of the folding / prefix protocols"))
+    return qs
+
+
 def c01(tier):
-    qs = scan_queries(tier) + tok_queries(tier)
+    qs = scan_queries(tier) + tok_queries(tier) + text_queries(tier)
     for q in qs:
         q.name = "C01_" + q.name
     return qs
@@ -666,10 +680,11 @@ def c03(tier):
     return qs
 
 
-META["C01"] = {"files": ["parser.c"], "functions": ["next_token", "scan_ws", "scan_to_ws", "scan_to_eol", "scan_unquoted", "scan_delim_string", "scan_triple_delim_string", "scan_text", "cif_parse_internal (table set-up)"],
-               "stubs": ["get_first_char / get_more_chars = contract for an exhausted source (C08)", "parse_cif = harness body", "stubs/icu_str.c"],
-               "assumptions": ["one token per query; composition over a document is by the token / production contracts (argued)", "CIF_LINE_LENGTH shrunk by hook"],
-               "outside": ["byte -> UChar decoding", "tokens longer than the bound", "characters the reference tokenizer leaves unspecified get generic assertions only"]}
+META["C01"] = {"files": ["parser.c"], "functions": ["next_token", "scan_ws", "scan_to_ws", "scan_to_eol", "scan_unquoted", "scan_delim_string", "scan_triple_delim_string", "scan_text", "decode_text", "cif_parse_internal (table set-up)"],
+               "stubs": ["get_first_char / get_more_chars = contract for an exhausted source (C08)", "parse_cif = harness body", "stubs/icu_str.c", "stubs/icu_norm_cheap.c and uthash model (decode_text queries link value.c)"],
+               "assumptions": ["one token / one text-field body per query; composition over a document is by the token / production contracts (argued)", "CIF_LINE_LENGTH shrunk by hook", "no CR inside a text-field body (EOL-normalised buffer, C08)"],
+               "outside": ["byte -> UChar decoding", "tokens longer than the bound", "characters the reference tokenizer leaves unspecified get generic assertions only",
+                           "parse_value / parse_list / parse_table / parse_cif and the storage of parsed content", "non-default folding / prefix options"]}
 
 
 # ------------------------------------------------------------------------------------------ C02 / C13
@@ -747,7 +762,7 @@ META["C02"] = {"files": ["ciffile.c", "utils.c"], "functions": ["write_char", "w
                "assumptions": ["CIF_LINE_LENGTH = 20 (15 in the forced-folding instances) via the CIF_API_VERIF_LINE_LENGTH hook", "value text of concrete length, contents symbolic; no CR; CIF 2.0 characters restricted to U+09, U+0A, U+20-7E, U+A0-D7FF (no surrogate pairs)",
                                "writer queries assume the writer contract; the dispatch queries prove write_char establishes it"],
                "outside": ["UTF-8 encoding of the output and the version comment (ICU, write_cif_start)", "the walk that feeds the writer (C14) and the storage below it", "lists / tables / numbers / container and loop headers / data names (write_list, write_table, write_numb, write_container_start, write_loop_start)",
-                           "values longer than the stated lengths; folding at the real 2048 limit is represented by the shrunk limit", "the real decode_text of the parser (the reference decoder stands for it)",
+                           "values longer than the stated lengths; folding at the real 2048 limit is represented by the shrunk limit", "the real parser end-to-end: the read-back uses the reference scanners and the reference decoder, which the C01 queries show equivalent to scan_* and decode_text within their bounds",
                            "runs of semicolons as long as a line"]}
 META["C13"] = META["C02"]
 
@@ -880,10 +895,12 @@ MANI["C01"] = {
             "each real scan function (scan_ws, scan_to_eol, scan_to_ws, scan_unquoted, scan_delim_string incl. triple quotes, scan_text) for ALL "
             "buffers of 5 (thorough 6-7) 16-bit units in both dialects, and the real next_token with all of them inlined for ALL buffers of 3 "
             "(thorough 4, plus reserved-word / delimiter prefixes) - token type, value extent, consumption, line count, no error on "
-            "well-formed input; production-level queries where listed in evidence.",
-    "note": "one token per query: a whole document is covered only through the composition of token and production contracts (argued, not "
-            "mechanised); buffer filling is replaced by its contract (C08); byte decoding (ICU), decode_text's prefix/fold protocol and "
-            "the storage of parsed content are outside unless a query for them is listed"}
+            "well-formed input; and the real decode_text (line-folding and text-prefix decoding) against a reference decoder for ALL "
+            "text-field bodies of 4-5 (thorough 3-8) units: the value is the decoded content, quoted.",
+    "note": "one token / one text-field body per query: a whole document is covered only through the composition of token and production "
+            "contracts (argued, not mechanised); buffer filling is replaced by its contract (C08); byte decoding (ICU), parse_value / "
+            "parse_list / parse_table / parse_cif and the storage of parsed content are outside (the item / loop / frame productions are "
+            "decided under C15 over token scripts)"}
 MANI["C12"] = {
     "text": "Lexical defect classes decided on the real scanner units against the reference tokenizer, for all buffers within the bound: "
             "missing end-quote, unterminated text field / triple-quoted string, missing whitespace, reserved words data_/stop_/global_, "
